@@ -259,9 +259,18 @@ static Fibre *stack_owner (uintptr_t a) {
 	return &g.fib[(a - STACKS_BASE) / STACK_SIZE];
 }
 
+static bool g_access_is_write;
 static void report_access (int cls, const char *what, Fibre *f, uintptr_t pc, uintptr_t addr,
 			   int other_tid, uint32_t other_pc, const char *other_what) {
 	char a[256], site[160];
+	if (cls == V_DEAD_ACCESS && !g_access_is_write && nsim_cfg.tolerate_dead_reads_in && pc &&
+	    (strstr (rt_symname (pc), nsim_cfg.tolerate_dead_reads_in) || nsim_fibre_in_func (f->tid, nsim_cfg.tolerate_dead_reads_in))) {
+		// a documented, tolerated read of reclaimed memory (see DESIGN.md, Appendix B): the run is cut here and discarded --
+		// never a verdict, and never continued, because what such a read returns is not defined
+		g.probe_hit[P_TOLERATED_DEAD_READ]++;
+		TRACE ("tolerated dead read in %s: run discarded", rt_symname (pc));
+		end_run (RV_LIMIT);
+	}
 	describe_stack (f, pc, a, sizeof a);
 	const char *s1 = pc ? rt_symname (pc) : (f->opname ? f->opname : "harness");
 	const char *s2 = other_pc ? rt_symname (other_pc) : (other_what ? other_what : "?");
@@ -279,6 +288,7 @@ static void report_access (int cls, const char *what, Fibre *f, uintptr_t pc, ui
 static inline void shadow_access (uintptr_t addr, int size, int kind, uintptr_t pc) {
 	Fibre *f = g.cur;
 	if (!f || !g.in_run) return;
+	g_access_is_write = (kind == 1 || kind == 3 || kind == 4);
 	if (g.site_hit && pc - g.text_lo < g.text_len) g.site_hit[pc - g.text_lo] = 1;
 	if (++g.plain_since_sched > 20000000) {
 		char a[256];
@@ -1505,7 +1515,7 @@ extern "C" int nsim_sys_sem_timedwait (sem_t *s, const struct timespec *ts) { re
 static void on_alarm (int sig) {
 	(void) sig;
 	if (!g.in_run || !g.cur) return;
-	rt_violation (NULL, V_NO_PROGRESS, "watchdog", "run exceeded the wall-clock watchdog without ending (loop without scheduling points)");
+	rt_violation (NULL, V_NO_PROGRESS, "watchdog", "run used 20 s of CPU time without ending (loop without scheduling points)");
 	g.tainted = 1;
 	g.verdict = RV_VIOLATION;
 	g.in_run = false;
@@ -1565,6 +1575,7 @@ void rt_init () {
 	sal.sa_handler = on_alarm;
 	sal.sa_flags = SA_ONSTACK | SA_NODEFER;
 	sigaction (SIGALRM, &sal, NULL);
+	sigaction (SIGVTALRM, &sal, NULL);
 	g.stamp = 1;
 	g.B1 = 30000; g.B2 = 300000;
 	if (getenv ("NSIM_SITES") && !symtab.empty ()) {
@@ -1671,7 +1682,9 @@ int rt_run (const struct nsim_family *fam) {
 	g.verdict = -1;
 	g.in_run = true;
 	volatile int started = 0;
-	alarm (20);
+	// watchdog on the CPU time this process spends in user mode (not wall-clock time: a loaded or briefly suspended
+	// machine must never turn into a verdict); it only fires for a loop that reaches no scheduling point
+	{ struct itimerval it; memset (&it, 0, sizeof it); it.it_value.tv_sec = 20; setitimer (ITIMER_VIRTUAL, &it, NULL); }
 	getcontext (&g.main_ctx);
 	if (!started) {
 		started = 1;
@@ -1681,6 +1694,6 @@ int rt_run (const struct nsim_family *fam) {
 	}
 	g.in_run = false;
 	g.cur = NULL;
-	alarm (0);
+	{ struct itimerval it; memset (&it, 0, sizeof it); setitimer (ITIMER_VIRTUAL, &it, NULL); }
 	return g.verdict;
 }
